@@ -27,18 +27,26 @@ INF = float("inf")
 def random_vrptw(rng):
     from vrpqubo.routing_problem.vrptw import VRPTW
     g = VRPTW()
-    g.set_vehicle_cap(5)
-    g.set_initial_loading(0)
+    ncust = rng.choice([1, 2, 2, 3, 3])
+    # a third of the instances carry non-zero demands with a vehicle that can serve all customers together (capacity is
+    # not binding: C08_capacity_free_nonneg_demands); the others have zero demands
+    if rng.random() < 0.35:
+        demands = [rng.randint(0, 2) for _ in range(ncust)]
+        init = sum(demands) + rng.randint(0, 2)
+        cap = init + rng.randint(0, 2)
+    else:
+        demands, cap, init = [0] * ncust, 5, 0
+    g.set_vehicle_cap(cap)
+    g.set_initial_loading(init)
     g.add_node("D", 0, (0, INF if rng.random() < 0.5 else rng.randint(3, 9)))
     g.set_depot("D")
-    ncust = rng.choice([1, 2, 2, 3, 3])
     names = ["D"]
     for k in range(ncust):
         lo = rng.randint(0, 4)
-        g.add_node(f"c{k+1}", 0, (lo, lo + rng.randint(0, 4)))
+        g.add_node(f"c{k+1}", demands[k], (lo, lo + rng.randint(0, 4)))
         names.append(f"c{k+1}")
     dens = rng.choice([0.5, 0.8, 1.0])
-    desc = {"nodes": [(n.name, n.demand, n.time_window[0], n.time_window[1]) for n in g.nodes], "arcs": []}
+    desc = {"nodes": [(n.name, n.demand, n.time_window[0], n.time_window[1]) for n in g.nodes], "arcs": [], "cap": cap, "init": init}
     for a in names:
         for b in names:
             if a == b or rng.random() > dens:
@@ -86,8 +94,8 @@ def targeted_vrptw(rng):
 def rebuild(desc):
     from vrpqubo.routing_problem.vrptw import VRPTW
     g = VRPTW()
-    g.set_vehicle_cap(5)
-    g.set_initial_loading(0)
+    g.set_vehicle_cap(desc.get("cap", 5))
+    g.set_initial_loading(desc.get("init", 0))
     for nm, dem, lo, hi in desc["nodes"]:
         g.add_node(nm, dem, (lo, hi))
     g.set_depot(desc["nodes"][0][0])
@@ -295,6 +303,8 @@ def run(ctx):
             continue
         key = repr(desc)
         dist["instances"] += 1
+        if any(nd[1] != 0 for nd in desc["nodes"]):
+            dist["nonzero_demands"] = dist.get("nonzero_demands", 0) + 1
         ncust = inst.n - 1
         dist["customers"][ncust] += 1
         routes = ref.all_valid_routes(inst)
@@ -337,7 +347,7 @@ def run(ctx):
             af, ao = feas, opt
         corr.append((desc, {"grid": list(grid), "pool": [list(map(int, r)) for r in pb.routes],
                             "costs": [float(c) for c in pb.route_costs], "reference": [feas, opt]},
-                     case_term(desc, 5, 0, pb.routes, pb.route_costs, grid, feas, opt)))
+                     case_term(desc, desc.get("cap", 5), desc.get("init", 0), pb.routes, pb.route_costs, grid, feas, opt)))
         if af != feas or (feas and ao != opt):
             bad("oracle/arc/optimum", f"arc-based optimum on the complete grid {grid} is {(af, ao)}, route-partition optimum is {(feas, opt)}",
                 desc, {"grid": grid})
@@ -387,10 +397,10 @@ def run(ctx):
                           {"instance": desc, "observed": extra, "tags": tags, "case": term}, False)
     ctx.assumptions.append("C08's theorems speak about the Coq models of the three formulations (Path.v, Arc.v, Seq.v); that the "
                            "implementation's A, b, R, c, Q are the models' is the correspondence of C05 / C06 / C07, not repeated here. "
-                           "Instances: integer data, zero demands (capacity cannot bind), depot window opening at 0, no depot self-arc.")
+                           "Instances: integer data, zero demands or non-negative demands with initial loading >= their sum and <= capacity (capacity cannot bind), depot window opening at 0, no depot self-arc.")
     ctx.count(evaluations=dist["instances"] * 4)
     ctx.cov["input_distribution"] = dist
-    ctx.cov["rule"] = ("random VRPTWs with 1-3 customers (zero demands so capacity never binds; instances where it would are skipped), integer windows, "
+    ctx.cov["rule"] = ("random VRPTWs with 1-3 customers (zero demands, or demands 0-2 with a vehicle that can serve all customers together, so capacity never binds; instances where it would are skipped), integer windows, "
                        "positive customer-customer travel times, costs of either sign; non-trivial = distinct feasible instance with more than one valid route")
     if ctx.tier == "thorough":
         ctx.coqchk("VQP.C08")
